@@ -125,10 +125,12 @@ func (e *OpEngine) RunInitializerChecks(maxRank int) {
 				label := fmt.Sprintf("%s %s shape=%s", d.name, v.label, shapeStr(shape))
 				e.RunBody(key, label, 600, func() {
 					e.M.Base = append(sizeBase(shape), d.base...)
-					out, ok := e.call(key, label, ctor, []interp.Value{v.conf()})
+					cv := v.conf()
+					out, ok := e.call(key, label, ctor, []interp.Value{cv})
 					if !ok {
 						return
 					}
+					e.poisonConfig(cv) // the caller changes / reuses its config afterwards
 					obj := out.Results[0]
 					if len(out.Results) == 2 {
 						if isErrVal(out.Results[1]) {
